@@ -3,7 +3,7 @@
 (* and every single structural mutation of each signed message.                *)
 EXTENDS Note, TLC, Json
 CONSTANTS MaxText
-VARIABLES phase, text, signers, known
+VARIABLES phase, text, signers, known, first
 
 K1 == Key(1, "A", 11)
 K2 == Key(2, "B", 22)
@@ -14,10 +14,16 @@ TextLines == {Txt(1), Txt(2), Blank, SigLike}
 SignerSeqs == {<<>>, <<K1>>, <<K2>>, <<K1, K2>>, <<K2, K1>>, <<K1, K3>>, <<K3>>, <<K1, K2, K3>>}
 KnownSets == {[keys |-> ks, liar |-> FALSE] : ks \in SUBSET {K1, K2, K3, K4}} \cup {[keys |-> {K1, K2}, liar |-> TRUE]}
 
-Init == phase = "hub" /\ text = <<>> /\ signers = <<>> /\ known = [keys |-> {}, liar |-> FALSE]
-Next == \/ /\ phase = "hub" /\ phase' = "text" /\ text' \in {<<l>> : l \in TextLines} /\ UNCHANGED <<signers, known>>
-        \/ /\ phase = "text" /\ Len(text) < MaxText /\ \E l \in TextLines : text' = Append(text, l) /\ UNCHANGED <<phase, signers, known>>
-        \/ /\ phase = "text" /\ phase' = "case" /\ signers' \in SignerSeqs /\ known' \in KnownSets /\ UNCHANGED text
+FirstSeqs == {<<K1>>, <<K2>>, <<K1, K2>>, <<K2, K1>>, <<K1, K3>>, <<K3, K1>>, <<K1, K2, K3>>, <<K3, K2, K1>>, <<K2, K3, K1>>}
+ResignKnown == {[keys |-> ks, liar |-> FALSE] : ks \in (SUBSET {K1, K2, K3}) \ {{}}}
+Init == phase = "hub" /\ text = <<>> /\ signers = <<>> /\ known = [keys |-> {}, liar |-> FALSE] /\ first = <<>>
+Next == \/ /\ phase = "hub" /\ phase' = "text" /\ text' \in {<<l>> : l \in TextLines} /\ UNCHANGED <<signers, known, first>>
+        \/ /\ phase = "text" /\ Len(text) < MaxText /\ \E l \in TextLines : text' = Append(text, l) /\ UNCHANGED <<phase, signers, known, first>>
+        \/ /\ phase = "text" /\ phase' = "case" /\ signers' \in SignerSeqs /\ known' \in KnownSets /\ UNCHANGED <<text, first>>
+        \* sign, open, sign again: the note carries signatures already (at least one of them known, so that it opens)
+        \/ /\ phase = "text" /\ Len(text) <= 2 /\ phase' = "resign" /\ first' \in FirstSeqs /\ known' \in ResignKnown
+           /\ signers' \in SignerSeqs \ {<<>>} /\ UNCHANGED text
+           /\ \E i \in 1..Len(first') : first'[i] \in known'.keys
 
 Msg == Sign(text, <<>>, signers)
 \* ---- single structural mutations of a signed message ----
@@ -65,6 +71,21 @@ NoForeignText == phase = "case" => \A m \in AllMsgs :
 \* any change of the text of a signed message is rejected (never opens with another text)
 TextChangeRejected == phase = "case" => \A m \in AllMsgs :
     LET o == Open(m, known) IN o.kind = "ok" => o.text = text
+
+\* ---- E1 (re-signing) ----
+SigKeys(ls) == [i \in 1..Len(ls) |-> ls[i].key]
+\* nothing is lost and nothing is doubled: every earlier signer not replaced by a new one is still there, once, before the new ones
+ResignKeepsOthers == phase = "resign" =>
+    LET out == SigKeys(Resign(text, first, known, signers))
+        replaced(k) == \E i \in 1..Len(signers) : signers[i].name = k.name /\ signers[i].hash = k.hash
+    IN /\ \A i \in 1..Len(first) : ~replaced(first[i]) => Cardinality({j \in 1..Len(out) : out[j] = first[i].id}) = 1
+       /\ \A i \in 1..Len(signers) : out[Len(out) - Len(signers) + i] = signers[i].id
+       /\ Len(out) = Len(signers) + Cardinality({i \in 1..Len(first) : ~replaced(first[i])})
+EmitResign == phase = "resign" =>
+    PrintT(ToJson([w |-> "note", k |-> "resign",
+                   in |-> [text |-> text, first |-> [i \in 1..Len(first) |-> first[i].id], known |-> {v.id : v \in known.keys},
+                           second |-> [i \in 1..Len(signers) |-> signers[i].id]],
+                   exp |-> [keys |-> SigKeys(Resign(text, first, known, signers))]]))
 
 Emit == phase = "case" => \A m \in AllMsgs :
     PrintT(ToJson([w |-> "note", k |-> "open", in |-> [msg |-> m, known |-> [keys |-> {v.id : v \in known.keys}, liar |-> known.liar], mutated |-> m # Msg],
